@@ -47,6 +47,8 @@ def main():
     env = dict(os.environ)
     out = subprocess.run([os.path.join(VERIF, "bin/scriggosa"), "-list"], capture_output=True, text=True)
     registered = out.stdout.split()
+    pending = set(open(os.path.join(VERIF, "tools/pending.txt")).read().split()) if os.path.exists(os.path.join(VERIF, "tools/pending.txt")) else set()
+    registered = [p for p in registered if p not in pending]
     props = [json.loads(l)["id"] for l in open(os.path.join(VERIF, "properties.jsonl"))]
     checks, na = [], []
     for p in props:
